@@ -14,3 +14,4 @@ import DnsVerif.Props.C20
 #print axioms DnsVerif.Props.C20.whoami_only_on_match
 #print axioms DnsVerif.Props.C20.oversize_truncated
 #print axioms DnsVerif.Props.C20.tcp_complete
+#print axioms DnsVerif.Props.C20.any_hinfo_matches
